@@ -56,7 +56,7 @@ Definition quiet (obs : list ev) : bool := forallb (fun e => negb (is_extra fals
 
 Lemma bare_quiet : forall o obs, bare_accepts o obs = true -> quiet obs = true.
 Proof.
-  intros [k c g okf vp] obs H. unfold bare_accepts in H. cbn [o_k o_ok] in H.
+  intros [k c g okf pp vp] obs H. unfold bare_accepts in H. cbn [o_k o_ok] in H.
   destruct k as [ty q| | |]; repeat (apply orb_prop in H; destruct H as [H|H]);
     try (apply andb_prop in H; destruct H as [_ H]);
     try destruct q; unfold direct_tag, stmt_tag in H; inv_mall H; reflexivity.
@@ -90,7 +90,7 @@ Lemma step_local : forall px s o obs, all_local s = true -> o_gtx o = false ->
   exists s', all_local s' = true /\
     step gen_cfg px s o obs = if bare_accepts o obs then Some s' else None.
 Proof.
-  intros px s [k c g okf vp] obs L Hg. simpl in Hg. subst g.
+  intros px s [k c g okf pp vp] obs L Hg. simpl in Hg. subst g.
   unfold step. rewrite cfg_ok_gen. cbn [negb o_k o_gtx o_conn o_ok].
   destruct k as [ty q| | |].
   - rewrite route_out. exists s. split; [assumption|reflexivity].
@@ -153,14 +153,19 @@ Lemma step_extra : forall s o obs s',
   step gen_cfg AT s o obs = Some s' ->
   bare_accepts o (erase_extra (is_bracket s o) obs) = true.
 Proof.
-  intros s [k c g okf vp] obs s' H.
-  unfold step in H. rewrite cfg_ok_gen in H. cbn [negb o_k o_gtx o_conn o_ok o_vp] in H.
+  intros s [k c g okf pp vp] obs s' H.
+  unfold step in H. rewrite cfg_ok_gen in H. cbn [negb o_k o_gtx o_conn o_ok o_vp o_prep] in H.
   unfold is_bracket. cbn [o_k o_gtx o_conn].
   destruct k as [ty q| | |].
   - (* statement *)
     destruct g; cbn [negb andb] in H |- *.
     + destruct okf; cbn [negb] in H; [|discriminate].
       unfold bare_accepts. cbn [o_k o_ok].
+      destruct pp.
+      { (* prepared by the caller: no bracket (the erasure of a bracket would not matter: none of its events occurs) *)
+        destruct (route gen_cfg true ty); simpl in H; try discriminate; destruct q;
+          accept_inv H; unfold stmt_tag in M; inv_mall M;
+          destruct (tx_get c s) as [[|d z]|]; reflexivity. }
       destruct (tx_get c s) as [[|d z]|] eqn:Tx.
       * (* local transaction *)
         destruct vp.
@@ -182,28 +187,28 @@ Proof.
         -- destruct (route gen_cfg true ty); destruct (img_nz obs); destruct q; simpl in H;
              try discriminate; accept_inv H; unfold direct_tag, undo_pats in M; simpl in M; inv_mall M; reflexivity.
     + rewrite route_out in H.
-      destruct (bare_accepts {| o_k := OStmt ty q; o_conn := c; o_gtx := false; o_ok := okf; o_vp := vp |} obs) eqn:B; [|discriminate].
+      destruct (bare_accepts {| o_k := OStmt ty q; o_conn := c; o_gtx := false; o_ok := okf; o_prep := pp; o_vp := vp |} obs) eqn:B; [|discriminate].
       apply bare_erase. assumption.
   - (* begin *)
     destruct g; cbn [negb] in H.
     + destruct (tx_get c s); [discriminate|]. destruct okf; [|discriminate].
       accept_inv H. inv_mall M. reflexivity.
-    + destruct (bare_accepts {| o_k := OBegin; o_conn := c; o_gtx := false; o_ok := okf; o_vp := vp |} obs) eqn:B; [|discriminate].
+    + destruct (bare_accepts {| o_k := OBegin; o_conn := c; o_gtx := false; o_ok := okf; o_prep := pp; o_vp := vp |} obs) eqn:B; [|discriminate].
       apply bare_erase. assumption.
   - (* commit *)
     destruct (tx_get c s) as [[|d z]|].
-    + destruct (bare_accepts {| o_k := OCommit; o_conn := c; o_gtx := g; o_ok := okf; o_vp := vp |} obs) eqn:B; [|discriminate].
+    + destruct (bare_accepts {| o_k := OCommit; o_conn := c; o_gtx := g; o_ok := okf; o_prep := pp; o_vp := vp |} obs) eqn:B; [|discriminate].
       apply bare_erase. assumption.
     + destruct okf; [|discriminate]. accept_inv H.
       destruct d; destruct z; unfold commit_pats, undo_pats in M; simpl in M; inv_mall M; reflexivity.
-    + destruct (bare_accepts {| o_k := OCommit; o_conn := c; o_gtx := g; o_ok := okf; o_vp := vp |} obs) eqn:B; [|discriminate].
+    + destruct (bare_accepts {| o_k := OCommit; o_conn := c; o_gtx := g; o_ok := okf; o_prep := pp; o_vp := vp |} obs) eqn:B; [|discriminate].
       apply bare_erase. assumption.
   - (* rollback *)
     destruct (tx_get c s) as [[|d z]|].
-    + destruct (bare_accepts {| o_k := ORollback; o_conn := c; o_gtx := g; o_ok := okf; o_vp := vp |} obs) eqn:B; [|discriminate].
+    + destruct (bare_accepts {| o_k := ORollback; o_conn := c; o_gtx := g; o_ok := okf; o_prep := pp; o_vp := vp |} obs) eqn:B; [|discriminate].
       apply bare_erase. assumption.
     + destruct okf; [|discriminate]. accept_inv H. inv_mall M. reflexivity.
-    + destruct (bare_accepts {| o_k := ORollback; o_conn := c; o_gtx := g; o_ok := okf; o_vp := vp |} obs) eqn:B; [|discriminate].
+    + destruct (bare_accepts {| o_k := ORollback; o_conn := c; o_gtx := g; o_ok := okf; o_prep := pp; o_vp := vp |} obs) eqn:B; [|discriminate].
       apply bare_erase. assumption.
 Qed.
 
